@@ -38,27 +38,59 @@ theorem slice_axis_conv_full_refuted :
   have := h 3 (some (-4)) none (-1) (by decide) (by decide) (by decide)
   revert this; decide
 
-/-- **Per-axis heart, eager mode.**  Same statement for the bounds `Tensor.__getitem__` computes
-(`s.start or 0`, `shape[axis]`; `shape-1`, `-(shape+1)` for a negative step). -/
-theorem slice_axis_eager_eq_py_partial (d : Int) (lo hi : Option Int) (step : Int)
-    (hd0 : 0 < d) (hs : step ≠ 0)
-    (hD22 : step < 0 → ∀ x, lo = some x → -d ≤ x) :
-    onnxNorm d (eagerBounds d lo hi step).1 (eagerBounds d lo hi step).2 step = pyAdjust d lo hi step := by
-  unfold onnxNorm eagerBounds pyAdjust at *
-  rcases lo with _ | x <;> rcases hi with _ | y <;> simp only [Option.getD] <;>
-    by_cases h1 : step > 0 <;> by_cases h2 : step < 0 <;>
-    simp only [h1, h2, if_true, if_false] <;>
-    (try omega)
-  all_goals (try (have hxx := hD22 h2 _ rfl))
-  all_goals (refine Prod.ext ?_ ?_ <;> simp only [Int.min_def, Int.max_def] <;> (repeat' split) <;> omega)
+/-- **Per-axis heart, eager mode** (after the repair of the eager half of D22: no hypothesis left).
+For every dimension size `d > 0`, every pair of optional bounds and every non-zero step, the
+bounds `Tensor.__getitem__` hands to ONNX `Slice` (`slice.indices(d)` rewritten in Slice's
+conventions) normalise to exactly CPython's adjusted bounds when the slice selects something, and
+to the empty range `0:0` when it selects nothing. -/
+theorem slice_axis_eager_eq_py (d : Int) (lo hi : Option Int) (step : Int)
+    (hd0 : 0 < d) (hs : step ≠ 0) :
+    (sliceLen (pyAdjust d lo hi step).1 (pyAdjust d lo hi step).2 step ≠ 0 →
+      onnxNorm d (eagerBounds d lo hi step).1 (eagerBounds d lo hi step).2 step = pyAdjust d lo hi step) ∧
+    (sliceLen (pyAdjust d lo hi step).1 (pyAdjust d lo hi step).2 step = 0 →
+      onnxNorm d (eagerBounds d lo hi step).1 (eagerBounds d lo hi step).2 step = (0, 0)) := by
+  have hbp := pyAdjust_bounds_pos d lo hi step (by omega)
+  have hbn := pyAdjust_bounds_neg d lo hi step (by omega)
+  have hzp := sliceLen_pos_step (pyAdjust d lo hi step).1 (pyAdjust d lo hi step).2 step
+  have hzn := sliceLen_neg_step (pyAdjust d lo hi step).1 (pyAdjust d lo hi step).2 step
+  unfold eagerBounds
+  generalize pyAdjust d lo hi step = p at *
+  obtain ⟨s, e⟩ := p
+  simp only at hbp hbn hzp hzn ⊢
+  constructor
+  · intro hne
+    simp only [hne, if_false]
+    rcases Int.lt_or_gt_of_ne hs with hneg | hpos
+    · have hb := hbn hneg
+      have hlt : ¬ s ≤ e := fun h => hne ((hzn hneg).mpr h)
+      unfold onnxNorm
+      by_cases he : e < 0
+      · simp only [he, if_true, hneg]
+        refine Prod.ext ?_ ?_ <;> simp only [Int.min_def, Int.max_def] <;> (repeat' split) <;> omega
+      · simp only [he, if_false, hneg, if_true]
+        refine Prod.ext ?_ ?_ <;> simp only [Int.min_def, Int.max_def] <;> (repeat' split) <;> omega
+    · have hb := hbp hpos
+      have hlt : ¬ e ≤ s := fun h => hne ((hzp hpos).mpr h)
+      have hn : ¬ step < 0 := by omega
+      unfold onnxNorm
+      by_cases he : e < 0
+      · omega
+      · simp only [he, if_false, hn]
+        refine Prod.ext ?_ ?_ <;> simp only [Int.min_def, Int.max_def] <;> (repeat' split) <;> omega
+  · intro hz
+    simp only [hz, if_true]
+    unfold onnxNorm
+    by_cases hneg : step < 0
+    · simp only [hneg, if_true]
+      refine Prod.ext ?_ ?_ <;> simp only [Int.min_def, Int.max_def] <;> (repeat' split) <;> omega
+    · simp only [hneg, if_false]
+      refine Prod.ext ?_ ?_ <;> simp only [Int.min_def, Int.max_def] <;> (repeat' split) <;> omega
 
-/-- Eager mode has the same defect: `Tensor(A)[-4::-1]`, `d = 3`. -/
-theorem slice_axis_eager_full_refuted :
-    ¬ (∀ (d : Int) (lo hi : Option Int) (step : Int), 0 < d → step ≠ 0 →
-        onnxNorm d (eagerBounds d lo hi step).1 (eagerBounds d lo hi step).2 step = pyAdjust d lo hi step) := by
-  intro h
-  have := h 3 (some (-4)) none (-1) (by decide) (by decide)
-  revert this; decide
+/-- The eager half of finding D22, repaired, as a regression: `Tensor(A)[-4::-1]`, `d = 3` now
+selects nothing, like CPython.  (Before the repair `onnxNorm 3 (-4) (-4) (-1) = (0, -1)`: `[A[0]]`.) -/
+theorem slice_axis_eager_d22_witness_fixed :
+    eagerBounds 3 (some (-4)) none (-1) = (0, 0) ∧ pyAdjust 3 (some (-4)) none (-1) = (-1, -1) ∧
+    sliceLen (-1) (-1) (-1) = 0 ∧ sliceLen 0 0 (-1) = 0 := by decide
 
 /-- **List level, converter**: for *every* list (every length below the int64 sentinel, the empty
 list included) the ONNX `Slice` of the converter's bounds selects exactly the elements Python's
@@ -73,17 +105,33 @@ theorem slice_list_conv_eq_numpy_partial {α} (l : List α) (lo hi : Option Int)
   · have hpos : (0 : Int) < ((a :: t).length : Int) := by simp only [List.length_cons]; omega
     rw [slice_axis_conv_eq_py_partial _ lo hi step hpos hlen hs hD22]
 
-/-- **List level, eager mode.** -/
-theorem slice_list_eager_eq_numpy_partial {α} (l : List α) (lo hi : Option Int) (step : Int)
-    (hs : step ≠ 0)
-    (hD22 : step < 0 → ∀ x, lo = some x → -(l.length : Int) ≤ x) :
+/-- **List level, eager mode** (no hypothesis beyond `step ≠ 0`): for every list, the empty one
+included, the ONNX `Slice` of eager mode's bounds selects exactly the elements Python's
+`l[lo:hi:step]` selects. -/
+theorem slice_list_eager_eq_numpy {α} (l : List α) (lo hi : Option Int) (step : Int)
+    (hs : step ≠ 0) :
     onnxSliceList l (eagerBounds l.length lo hi step).1 (eagerBounds l.length lo hi step).2 step
       = pySliceList l lo hi step := by
   unfold onnxSliceList pySliceList
   rcases l with _ | ⟨a, t⟩
   · simp only [enumerate_nil]
   · have hpos : (0 : Int) < ((a :: t).length : Int) := by simp only [List.length_cons]; omega
-    rw [slice_axis_eager_eq_py_partial _ lo hi step hpos hs hD22]
+    obtain ⟨h1, h2⟩ := slice_axis_eager_eq_py _ lo hi step hpos hs
+    generalize pyAdjust ((a :: t).length : Int) lo hi step = p at h1 h2 ⊢
+    obtain ⟨s, e⟩ := p
+    simp only at h1 h2 ⊢
+    by_cases hz : sliceLen s e step = 0
+    · rw [h2 hz]
+      have : sliceLen 0 0 step = 0 := by
+        unfold sliceLen; simp
+      simp only [hz, this, enumerate]
+    · rw [h1 hz]
+
+example : onnxSliceList [10, 20, 30] (eagerBounds 3 (some (-4)) none (-1)).1
+      (eagerBounds 3 (some (-4)) none (-1)).2 (-1) = [] ∧
+    pySliceList [10, 20, 30] (some (-4)) none (-1) = [] ∧
+    onnxSliceList [10, 20, 30] (eagerBounds 3 none (some 0) (-1)).1
+      (eagerBounds 3 none (some 0) (-1)).2 (-1) = [30, 20] := by decide
 
 example : onnxSliceList [10, 20, 30, 40, 50] (convBounds none (some (-3)) (-2)).1
     (convBounds none (some (-3)) (-2)).2 (-2) = [50] ∧ pySliceList [10, 20, 30, 40, 50] none (some (-3)) (-2) = [50] := by
@@ -282,6 +330,95 @@ theorem graph_index_without_d22_refuted :
     (by decide) (by decide) (by decide) (by decide) (by decide)
   revert this; decide
 
+/-- **Finding C11-N1** (open): too many indices.  `A[0, :]` on a 1-D `A`: the converter does not
+know the rank, `:` emits nothing, so the graph is the single Gather of `A[0]` and returns a
+tensor; NumPy raises IndexError and eager mode refuses with ValueError.  Replayed on the real
+code by the check. -/
+theorem graph_index_too_many_indices_witness :
+    graphIndex [.int 0, .full] [3] = .ok [.drop 0] ∧
+    numpyIndex [.int 0, .full] [3] = .error .indexError ∧
+    eagerIndex [.int 0, .full] [3] = .error .valueError := by decide
+
+/-- … hence the hypothesis `comps.length ≤ shape.length` of `graph_index_correct_partial` cannot be
+dropped (every other hypothesis holds for the witness). -/
+theorem graph_index_without_len_refuted :
+    ¬ (∀ (comps : List Comp) (shape : List Nat) (r : View),
+        (comps.filter Comp.isVec).length ≤ 1 → needsTranspose comps = false →
+        (∀ d ∈ shape, (d : Int) < maxint) →
+        (∀ (j d : Nat) (lo hi st : Bnd), comps[j]? = some (.slice lo hi st) → shape[j]? = some d →
+          (st.val?).getD 1 < 0 → ∀ x, lo.val? = some x → -(d : Int) ≤ x) →
+        graphIndex comps shape = .ok r → numpyIndex comps shape = .ok r) := by
+  intro h
+  have := h [.int 0, .full] [3] [.drop 0] (by decide) (by decide) (by decide)
+    (by intro j d lo hi st hc; cases j with
+        | zero => simp at hc
+        | succ j => cases j with
+          | zero => simp at hc
+          | succ j => simp at hc)
+    (by decide)
+  revert this; decide
+
+/-- **Surplus `:` are ignored by the converter** — for every expression, every number of appended
+`:`/`::` components and every shape (so also when they exceed the rank: the mechanism of finding
+C11-N1): the graph is the graph of the expression without them. -/
+theorem graph_surplus_skips_ignored (comps extra : List Comp) (shape : List Nat)
+    (hextra : ∀ c ∈ extra, c.kind = Kind.skip) :
+    graphIndex (comps ++ extra) shape = graphIndex comps shape := by
+  unfold graphIndex
+  rw [planGraph_append_skips comps extra hextra]
+
+example : graphIndex ([.int 0] ++ [.full, .slice .none .none .none]) [3] = .ok [.drop 0] := by decide
+
+/-- **Too many indices, exactly** (the whole family of finding C11-N1, no hypothesis).  Whenever
+the translated graph returns a tensor — for any expression, any shape, also with more components
+than the tensor has axes — every component beyond the rank is `:` (a surplus int, slice or tensor
+index makes Slice or the first Gather fail at run time), and the tensor is the one the graph
+returns for the expression cut down to the rank. -/
+theorem graph_too_many_indices_only_surplus_skips (comps : List Comp) (shape : List Nat) (r : View)
+    (h : graphIndex comps shape = .ok r) :
+    (∀ (j : Nat) (c : Comp), shape.length ≤ j → comps[j]? = some c → c.kind = Kind.skip) ∧
+    graphIndex (comps.take shape.length) shape = .ok r := by
+  have hskip : ∀ (j : Nat) (c : Comp), shape.length ≤ j → comps[j]? = some c → c.kind = Kind.skip := by
+    intro j c hjn hj
+    by_cases hk : c.kind = Kind.skip
+    · exact hk
+    · obtain ⟨e, he⟩ := graph_surplus_nonskip_fails comps shape j c hj hjn hk
+      rw [he] at h; cases h
+  refine ⟨hskip, ?_⟩
+  have := graph_surplus_skips_ignored (comps.take shape.length) (comps.drop shape.length) shape
+    (by
+      intro c hc
+      obtain ⟨i, hi⟩ := List.getElem?_of_mem hc
+      rw [List.getElem?_drop] at hi
+      exact hskip (shape.length + i) c (by omega) hi)
+  rw [List.take_append_drop] at this
+  rw [← this]; exact h
+
+example : graphIndex [.slice (.const 1) .none .none, .full, .full] [3] = .ok [.pick [1, 2]] ∧
+    graphIndex [.full, .int 0] [3] = .error .indexError ∧
+    graphIndex [.int 0, .tScalar 0] [3] = .error .indexError := by decide
+
+/-- **Whole expressions, the converter, without the length hypothesis**: whatever the number of
+components, a tensor returned by the graph is NumPy's tensor for the expression cut down to the
+rank of the indexed tensor (which is the expression itself when it has at most `rank`
+components). -/
+theorem graph_index_correct_any_length_partial (comps : List Comp) (shape : List Nat) (r : View)
+    (hvec : ((comps.take shape.length).filter Comp.isVec).length ≤ 1)
+    (hnt : needsTranspose (comps.take shape.length) = false)
+    (hdims : ∀ d ∈ shape, (d : Int) < maxint)
+    (hD22 : ∀ (j d : Nat) (lo hi st : Bnd), comps[j]? = some (.slice lo hi st) → shape[j]? = some d →
+        (st.val?).getD 1 < 0 → ∀ x, lo.val? = some x → -(d : Int) ≤ x)
+    (h : graphIndex comps shape = .ok r) : numpyIndex (comps.take shape.length) shape = .ok r := by
+  refine graph_index_correct_partial (comps.take shape.length) shape r hvec hnt
+    (List.length_take_le _ _) hdims ?_ (graph_too_many_indices_only_surplus_skips comps shape r h).2
+  intro j d lo hi st hc hd hneg x hx
+  have hc' : comps[j]? = some (.slice lo hi st) := by
+    rw [List.getElem?_take] at hc
+    split at hc
+    · exact hc
+    · cases hc
+  exact hD22 j d lo hi st hc' hd hneg x hx
+
 /-- **Whole expressions, Slice(+Squeeze) path, constant components** (the statement proved before
 tensor-valued components were covered; now a corollary of `graph_index_correct_partial`). -/
 theorem graph_index_slicepath_correct_partial (comps : List Comp) (shape : List Nat) (r : View)
@@ -320,10 +457,9 @@ example : useSlice [.int 0, .tVec [1, 2]] = false ∧
     graphIndex [.int 0, .tVec [1, 2]] [2, 3, 4] = .ok [.drop 0, .pick [1, 2], .pick [0, 1, 2, 3]] := by decide
 
 /-- **Axis level, eager mode** (every component that eager mode's Slice(+squeeze) path handles:
-`:`, rank-0 indices — Python ints are promoted —, slices with constant *or tensor-valued* bounds). -/
-theorem eager_axis_refines_numpy_partial (c : Comp) (srcs : List Nat) (a : AxisMap)
-    (hD22 : ∀ lo hi st, c = .slice lo hi st → (st.val?).getD 1 < 0 →
-              ∀ x, lo.val? = some x → -(srcs.length : Int) ≤ x)
+`:`, rank-0 indices — Python ints are promoted —, slices with constant *or tensor-valued* bounds);
+no hypothesis is left after the repair of the eager half of D22. -/
+theorem eager_axis_refines_numpy (c : Comp) (srcs : List Nat) (a : AxisMap)
     (h : eagerAxisSlicePath c srcs = .ok a) : numpyAxis c srcs = .ok a := by
   have hscalar : ∀ i : Int, eagerAxisSlicePath (.int i) srcs = .ok a → numpyAxis (.int i) srcs = .ok a := by
     intro i h
@@ -359,23 +495,22 @@ theorem eager_axis_refines_numpy_partial (c : Comp) (srcs : List Nat) (a : AxisM
       · simp [hv] at h
       · have hb0 : ((st.val?).getD 1 == 0) = false := by simpa using hv
         simp only [hb0] at h ⊢
-        rw [slice_list_eager_eq_numpy_partial srcs _ _ _ hv
-          (fun hneg x hx => hD22 lo hi st rfl hneg x hx)] at h
+        rw [slice_list_eager_eq_numpy srcs _ _ _ hv] at h
         exact h
 
 /-- **Whole expressions, eager mode (all paths, tensor-valued indices and bounds included).**
 For *every* index expression with at most one 1-D tensor index placed so that NumPy keeps the
 broadcast axis in place — `:`, Python ints, rank-0 tensor indices, slices whose bounds and steps
 are constants or tensors, any rank, any dimension sizes: if `Tensor.__getitem__` returns a
-tensor, NumPy returns the same tensor, given only the D22 hypothesis for negative steps.  All
-paths of the code are covered: Identity, single Gather, Slice + `np.squeeze`, each followed by the
-1-D Gather on the axis of the intermediate result (/repo commit e7769b9; before it `X[0, I]` was
-wrong — `eager_index_d7_witness_fixed`).  "Too many indices" is refused by the code itself. -/
+tensor, NumPy returns the same tensor.  **No D22 hypothesis any more** (eager mode normalises with
+`slice.indices`).  All paths of the code are covered: Identity, single Gather, Slice +
+`np.squeeze`, each followed by the 1-D Gather on the axis of the intermediate result (/repo commit
+e7769b9; before it `X[0, I]` was wrong — `eager_index_d7_witness_fixed`).  "Too many indices" and a
+zero step are refused by the code itself.  What keeps the `_partial`: the two hypotheses describe
+the limit of the per-axis NumPy specification, not of the code. -/
 theorem eager_index_correct_partial (comps : List Comp) (shape : List Nat) (r : View)
     (hvec : (comps.filter Comp.isVec).length ≤ 1)
     (hnt : needsTranspose comps = false)
-    (hD22 : ∀ (j d : Nat) (lo hi st : Bnd), comps[j]? = some (.slice lo hi st) → shape[j]? = some d →
-        (st.val?).getD 1 < 0 → ∀ x, lo.val? = some x → -(d : Int) ≤ x)
     (h : eagerIndex comps shape = .ok r) : numpyIndex comps shape = .ok r := by
   obtain ⟨hlen, F, hF, hax⟩ := eager_index_axiswise comps shape r hvec h
   refine numpyIndex_of_axiswise comps shape r hvec hnt hlen ?_
@@ -383,11 +518,7 @@ theorem eager_index_correct_partial (comps : List Comp) (shape : List Nat) (r : 
   intro j c d a hc hd hg
   rcases hax j c d a hc hd hg with hn | he
   · exact hn
-  · refine eager_axis_refines_numpy_partial c (List.range d) a ?_ he
-    intro lo hi st hcs hneg x hx
-    subst hcs
-    simp only [List.length_range]
-    exact hD22 j d lo hi st hc hd hneg x hx
+  · exact eager_axis_refines_numpy c (List.range d) a he
 
 example : eagerIndex [.int (-2), .slice (.const 1) .none .none] [3, 4] = .ok [.drop 1, .pick [1, 2, 3]] := by
   decide
@@ -395,6 +526,35 @@ example : eagerIndex [.int 0, .tVec [1, 2]] [2, 3, 4] = .ok [.drop 0, .pick [1, 
     needsTranspose [.int 0, .tVec [1, 2]] = false := by decide
 example : eagerIndex [.tScalar 1, .slice (.dyn 1) .none .none, .tVec [3, 0]] [2, 3, 4]
     = .ok [.drop 1, .pick [1, 2], .pick [3, 0]] := by decide
+
+/-- **The two front ends agree** (DESIGN: `graph_eq_eager_partial`): whenever the translated graph
+and eager mode both return a tensor for the same expression (within the forms of
+`graph_index_correct_partial`), they return the same tensor. -/
+theorem graph_eq_eager_partial (comps : List Comp) (shape : List Nat) (r r' : View)
+    (hvec : (comps.filter Comp.isVec).length ≤ 1)
+    (hnt : needsTranspose comps = false)
+    (hdims : ∀ d ∈ shape, (d : Int) < maxint)
+    (hD22 : ∀ (j d : Nat) (lo hi st : Bnd), comps[j]? = some (.slice lo hi st) → shape[j]? = some d →
+        (st.val?).getD 1 < 0 → ∀ x, lo.val? = some x → -(d : Int) ≤ x)
+    (hg : graphIndex comps shape = .ok r) (he : eagerIndex comps shape = .ok r') : r = r' := by
+  have hlen : comps.length ≤ shape.length := (eager_index_axiswise comps shape r' hvec he).1
+  have h1 := graph_index_correct_partial comps shape r hvec hnt hlen hdims hD22 hg
+  have h2 := eager_index_correct_partial comps shape r' hvec hnt he
+  rw [h1] at h2
+  cases h2; rfl
+
+example : graphIndex [.tScalar 1, .slice (.const 2) .none (.const (-1)), .int 0] [2, 3, 4]
+    = eagerIndex [.tScalar 1, .slice (.const 2) .none (.const (-1)), .int 0] [2, 3, 4] ∧
+    eagerIndex [.tScalar 1, .slice (.const 2) .none (.const (-1)), .int 0] [2, 3, 4]
+      = .ok [.drop 1, .pick [2, 1, 0], .drop 0] := by decide
+
+/-- Refusal: eager mode rejects more index components than the tensor has axes (the converter
+cannot: finding C11-N1). -/
+theorem eager_too_many_refused (comps : List Comp) (shape : List Nat) (h : comps.length > shape.length) :
+    eagerIndex comps shape = .error .valueError := by
+  unfold eagerIndex planEager
+  rw [if_pos h]
+  rfl
 
 /-- Finding D7, repaired by /repo commit e7769b9, as a regression: `A[i, 0]` (`i` a rank-0 tensor
 holding 1, `A : 2×3×4`) — the model of the old converter gathered axis 0 and then axis **1** of
@@ -416,11 +576,33 @@ theorem eager_index_witness_ok :
     eagerIndex [.tScalar 1, .int 0] [2, 3, 4] = numpyIndex [.tScalar 1, .int 0] [2, 3, 4] ∧
     eagerIndex [.tScalar 1, .int 0] [2, 3, 4] = graphIndex [.tScalar 1, .int 0] [2, 3, 4] := by decide
 
-/-- D22 at the level of whole expressions: `A[-4::-1]` on a length-3 tensor. -/
+/-- D22 at the level of whole expressions: `A[-4::-1]` on a length-3 tensor — open for the
+translated graph (the converter does not know the dimension), repaired for eager mode. -/
 theorem graph_index_d22_witness :
     graphIndex [.slice (.const (-4)) .none (.const (-1))] [3] = .ok [.pick [0]] ∧
-    eagerIndex [.slice (.const (-4)) .none (.const (-1))] [3] = .ok [.pick [0]] ∧
     numpyIndex [.slice (.const (-4)) .none (.const (-1))] [3] = .ok [.pick []] := by decide
+
+/-- … and the eager half as a regression (it returned `[A[0]]` before the repair). -/
+theorem eager_index_d22_witness_fixed :
+    eagerIndex [.slice (.const (-4)) .none (.const (-1))] [3]
+      = numpyIndex [.slice (.const (-4)) .none (.const (-1))] [3] ∧
+    eagerIndex [.int 1, .slice (.const (-9)) (.const 5) (.const (-2))] [2, 4]
+      = numpyIndex [.int 1, .slice (.const (-9)) (.const 5) (.const (-2))] [2, 4] := by decide
+
+/-- A zero step is refused by eager mode while the index is read (`slice.indices` raises
+ValueError), whatever else the expression contains. -/
+theorem eager_zero_step_refused (pre post : List Comp) (lo hi : Bnd) (shape : List Nat)
+    (hlen : (pre ++ .slice lo hi (.const 0) :: post).length ≤ shape.length) :
+    eagerIndex (pre ++ .slice lo hi (.const 0) :: post) shape = .error .valueError := by
+  unfold eagerIndex planEager
+  rw [if_neg (by omega)]
+  have : (pre ++ Comp.slice lo hi (.const 0) :: post).any
+      (fun c => c.isEagerSliced && c.stepVal == 0) = true := by
+    simp [List.any_append, Comp.isEagerSliced, Comp.stepVal, Bnd.val?]
+  rw [if_pos this]
+  rfl
+
+example : eagerIndex [.full, .slice .none .none (.const 0)] [2, 3] = .error .valueError := by decide
 
 /-- Refusal: a slice whose step is tensor-valued and whose start is omitted (`A[:hi:k]`, `A[::k]`). -/
 theorem dyn_step_omitted_start_refused (hi : Bnd) (s : Int) :
